@@ -253,3 +253,18 @@ PROPS["C16"] = dict(
     assumptions=["CompiledFmt.tla: TLC checks Decode(Encode(x)) = x and that every strict prefix is rejected, on a bounded record space",
                  "file-based steps only for names that are valid file names"],
 )
+
+PROPS["C05"] = dict(
+    level="exploration",
+    stages=[dict(name="enum", module="MC_C05", cfg={"quick": "MC_C05_quick.cfg", "thorough": "MC_C05_thorough.cfg"},
+                 timeout={"quick": 300, "thorough": 2400}, limit="5s")],
+    nontrivial=lambda r: True,
+    rule="tok: every sequence of up to SeqLen of 79 token classes (and up to SeqLenSmall of a 31-token alphabet) after {{ {% {%- {#, "
+         "closed / unclosed / wrongly closed, optionally followed by a closing block tag; shape: 37 Go value shapes (nil, typed maps and "
+         "slices, arrays, structs, nil pointers, pointer to pointer, func, chan, time, []byte, error ...) x 75 skeleton templates; dec: "
+         "truncation at every offset, 7 boundary values in every length field and 3 changes of every byte of 3 valid encodings. "
+         "Verdict: no panic, no hang (5 s, re-run alone with 50 s), no process death, and the engine still renders a probe template",
+    assumptions=["the verdict is observational (level exploration): the specification supplies the enumerated input spaces and the contract "
+                 "(Ok or Err, engine usable afterwards); TLC checks that the reference decoder is total on the corruptions",
+                 "a loop over range(1, 2^40) is excluded: a finite but enormous computation the template itself asks for"],
+)
